@@ -66,8 +66,8 @@ CLAIMED = {
    technique="deterministic simulation twin runs under perturbation of hash seed, global RNG state and clock"),
 
  "C03": dict(level="fault_enumeration", engine="TrainSim twin runs + update refinement", design="§4 C03, §9.2",
-   text="Decided inside simulated training. (1) Fault injection with twin runs: (a) overwriting the successor observation of every stored terminated transition with another finite stored observation must leave the complete training trace (all logged losses, all actions, final hashes of all modules and optimisers) bit-identical for DQN, Nature-DQN, DDQN, PER-DDQN, DDPG, TD3, TD3+LAP, SAC; (b) permuting the rows of one returned batch must leave that update's logged loss and q mean unchanged to 1e-5 for the losses whose target is a function of the row alone; a control fault on non-terminated rows must change the trace. (2) Refinement: in simulated runs of DQN, Nature-DQN, DDQN, PER-DDQN, DDPG, TD3, TD3+LAP, SAC, TD7 and MR.Q every update's logged loss, q mean, mean / per-sample |TD| (and TD7's SALE loss and tracked value range) must equal a float64 reference of the documented regression onto y = r + (1-terminated)*gamma*bootstrap (max / double-Q selection / clipped double-Q minimum / SAC entropy term / TD7 value clipping / MR.Q n-step return with residual discount and reward scales) computed from a copy of the sampled batch and clones of the networks as they were at that instant of the history.",
-   note="Value equality is decided on the states the simulated histories reach, not for all inputs. NOT decided: MR.Q's encoder loss value, gradients w.r.t. online parameters (e.g. a moved stop_gradient with identical loss values), batch size 1.",
+   text="Decided inside simulated training. (1) Fault injection with twin runs: (a) overwriting the successor observation of every stored terminated transition with another finite stored observation must leave the complete training trace (all logged losses, all actions, final hashes of all modules and optimisers) bit-identical for DQN, Nature-DQN, DDQN, PER-DDQN, DDPG, TD3, TD3+LAP, SAC; (b) permuting the rows of one returned batch must leave that update's logged loss and q mean unchanged to 1e-5 for the losses whose target is a function of the row alone; a control fault on non-terminated rows must change the trace. (2) Refinement: in simulated runs of DQN, Nature-DQN, DDQN, PER-DDQN, DDPG, TD3, TD3+LAP, SAC, TD7 and MR.Q every update's logged loss, q mean, mean / per-sample |TD| (and TD7's SALE loss and tracked value range) must equal a float64 reference of the documented regression onto y = r + (1-terminated)*gamma*bootstrap (max / double-Q selection / clipped double-Q minimum / SAC entropy term / TD7 value clipping / MR.Q n-step return with residual discount and reward scales) computed from a copy of the sampled batch and clones of the networks as they were at that instant of the history; every SALE update of TD7 is replayed with a clone of the real optimiser along the gradient of the documented loss with a gradient-stopped target and must land on the embedding observed at the next sample.",
+   note="Value equality is decided on the states the simulated histories reach, not for all inputs. NOT decided: MR.Q's encoder loss value, gradients of the critic losses w.r.t. online parameters, batch size 1.",
    technique="deterministic simulation: twin runs with storage-corruption and batch-reordering faults in the replay-buffer seam; per-update refinement of the recorded training history against a float64 reference model"),
  "C07": dict(level="fault_enumeration", engine="TrainSim twin runs + recurrence refinement", design="§4 C07, §9.2",
    text="Decided inside simulated training. (1) Fault injection with twin runs: rewriting, in the batch returned by one sample_batch call of train_mrq, every field after the first terminated step of each sampled sub-trajectory must leave the complete training trace (critic target/loss, encoder / dynamics / reward / done losses, priorities through later sampling, final hashes) bit-identical; rewriting ONE environment's reward script must leave A2C's advantages and returns of the other environments bit-identical. (2) Refinement against float64 recurrences on what simulated runs produce: A2C's advantages/returns per environment (GAE cut at terminated steps); the advantages PPO's loss receives, per environment over that environment's own rollout segment, and the observations PPO's value bootstrap is computed from (must belong to the same environment); reward-to-go and discount column of every dataset in train_reinforce / train_ac (incl. integer-typed rewards).",
